@@ -4,6 +4,7 @@ splitBlocks, mostViolated, the body of the satisfy loop (`process`), satisfy, so
 -/
 import AdaptaVerif.Lemmas.VpscSplit
 import AdaptaVerif.Lemmas.VpscTraverse
+import AdaptaVerif.Lemmas.VpscFeasible
 namespace AdaptaVerif.Lemmas.VpscLoop
 open AdaptaVerif.Model.Vpsc
 open AdaptaVerif.Lemmas.VpscGraph AdaptaVerif.Lemmas.VpscModel AdaptaVerif.Lemmas.VpscHistory
@@ -201,7 +202,9 @@ theorem splitOn_core (st : St) (ci : Nat) (ia : Array Nat)
     (st.splitOn (blk st.vars (st.cons[ci]!).l) ci).2.1 ≠
       (st.splitOn (blk st.vars (st.cons[ci]!).l) ci).2.2 ∧
     (st.splitOn (blk st.vars (st.cons[ci]!).l) ci).1.inactive = st.inactive.push ci ∧
-    st.fuelOut = false := by
+    st.fuelOut = false ∧
+    (st.splitOn (blk st.vars (st.cons[ci]!).l) ci).1.cons =
+      st.cons.set! ci { st.cons[ci]! with active := false } := by
   have hci := active_lt _ _ hact
   unfold St.splitOn St.split at hfo ⊢
   simp only [St.refreshBlock, St.markDeleted, St.pushInactive] at hfo ⊢
@@ -209,7 +212,7 @@ theorem splitOn_core (st : St) (ci : Nat) (ia : Array Nat)
   obtain ⟨⟨hf0, hok1⟩, hok2⟩ := hfo
   obtain ⟨c1, c2, c3⟩ := split_core st.vars st.cons st.blocks.size ia h ci hci hact
     (st.vars.size + 1) #[] #[] hok1 hok2
-  refine ⟨by simpa using c1, c2, c3, by omega, trivial, hf0⟩
+  refine ⟨by simpa using c1, c2, c3, by omega, trivial, hf0, trivial⟩
 
 /-! ### splitBlocks -/
 
@@ -243,7 +246,7 @@ theorem splitOn_J (st : St) (ci : Nat) (h : J st) (hact : (st.cons[ci]!).active 
           simp [St.refreshBlock, St.markDeleted, St.pushInactive, h1]
         rw [this] at hfo'
         exact absurd hfo' (by simp)
-    obtain ⟨c1, _, _, _, c5, _⟩ := splitOn_core st ci st.inactive (J.inv h hf0) hact hfo'
+    obtain ⟨c1, _, _, _, c5, _, _⟩ := splitOn_core st ci st.inactive (J.inv h hf0) hact hfo'
     unfold VpscInv.Inv
     rw [hv, hc, hb, hi, c5]
     exact c1
@@ -419,5 +422,156 @@ theorem mostViolated_spec (st : St) : MVSpec st st.mostViolated := by
           simp only [Option.some.injEq] at hv
           subst hv
           exact ⟨hcj, fun j hj _ => hj, fun _ => ⟨rfl, hall⟩⟩
+
+/-! ### the body of the satisfy loop -/
+
+/-- merging across the constraint that was just taken off the `inactive` list -/
+theorem mergeAcross_hole (st : St) (v : Nat)
+    (h : InvC st.vars st.cons st.blocks.size (st.inactive.push v)) (hv : v < st.cons.size)
+    (hne : blk st.vars (st.cons[v]!).l ≠ blk st.vars (st.cons[v]!).r) :
+    Inv (st.mergeAcross v).1 := by
+  unfold VpscInv.Inv
+  rw [(mergeAcross_frame st v).1, (mergeAcross_frame st v).2.1, mergeAcross_cons, mergeAcross_vars]
+  simp only
+  have hactive : ((st.cons.set! v { st.cons[v]! with active := true })[v]!).active = true := by
+    rw [cons_set_get]; simp [hv]
+  split
+  · exact InvC.drop_push (merge_core _ _ _ _ h v hv hne _ _ _ (Or.inl ⟨rfl, rfl, rfl⟩)) (Or.inl hactive)
+  · exact InvC.drop_push (merge_core _ _ _ _ h v hv hne _ _ _ (Or.inr ⟨rfl, rfl, rfl⟩)) (Or.inl hactive)
+
+theorem slack_none (st : St) (v : Nat) (h : st.slack v = none) : (st.cons[v]!).unsat = true := by
+  unfold St.slack at h
+  simp only at h
+  split at h
+  · assumption
+  · simp at h
+
+theorem afterSplit_J (st : St) (v lid rid : Nat)
+    (h : InvC st.vars st.cons st.blocks.size (st.inactive.push v)) (hv : v < st.cons.size)
+    (hne : blk st.vars (st.cons[v]!).l ≠ blk st.vars (st.cons[v]!).r) :
+    (st.afterSplit v lid rid).fuelOut = st.fuelOut ∧ Inv (st.afterSplit v lid rid) := by
+  unfold St.afterSplit
+  split
+  · rename_i hs
+    exact ⟨rfl, InvC.drop_push h (Or.inr (slack_none st v hs))⟩
+  · rename_i s hs
+    simp only
+    split
+    · refine ⟨rfl, ?_⟩
+      unfold VpscInv.Inv
+      simp only [St.incResat, St.insertBlocks, St.pushInactive, St.note]
+      exact h
+    · have := mergeAcross_hole (st.note s) v h hv hne
+      refine ⟨(mergeAcross_frame (st.note s) v).2.2, ?_⟩
+      unfold VpscInv.Inv at this ⊢
+      simp only [St.insertBlock]
+      exact this
+
+/-! ### justification of the two flagging branches -/
+
+open AdaptaVerif.Lemmas.VpscFlag in
+theorem tightActive_of_inv {st : St} {n : Nat} {ia : Array Nat}
+    (h : InvC st.vars st.cons n ia) : TightActive st := by
+  intro c hc hact
+  obtain ⟨j, hj, rfl⟩ := Array.mem_iff_getElem.1 hc
+  have e : st.cons[j] = st.cons[j]! := (getElem!_pos _ j hj).symm
+  rw [e] at hact ⊢
+  obtain ⟨t1, t2⟩ := h.tight j hj hact
+  unfold blk at t1
+  unfold offs at t2
+  simp only [St.uval, t1]
+  linarith
+
+theorem getElem!_mem' (cons : Array Con) (v : Nat) (hv : v < cons.size) : cons[v]! ∈ cons := by
+  rw [getElem!_pos cons v hv]; exact Array.getElem_mem hv
+
+theorem viol_of_slack (st : St) (v : Nat) (s : Rat) (hs : st.slack v = some s) (hneg : s < 0) :
+    st.uval (st.cons[v]!).r - (st.cons[v]!).gap - st.uval (st.cons[v]!).l < 0 := by
+  unfold St.slack at hs
+  simp only at hs
+  split at hs
+  · simp at hs
+  · simp only [Option.some.injEq] at hs
+    rw [hs]; exact hneg
+
+/-- a walk all of whose steps run against the direction of their constraint is a directed walk of
+    constraints from its end to its start -/
+theorem backward_walk (cons : Array Con) : ∀ (W : List Step) (x y : Nat), Walk cons x y W →
+    (∀ s ∈ W, s.2.1 = (cons[s.1]!).r ∧ s.2.2 = (cons[s.1]!).l) →
+    ∃ p : List Con, (∀ c ∈ p, c ∈ cons ∧ c.active = true) ∧
+      AdaptaVerif.Check.Vpsc.walkEnd y (p.map conEdge) = some x := by
+  intro W
+  induction W with
+  | nil => intro x y h _; cases h; exact ⟨[], by simp, by simp [AdaptaVerif.Check.Vpsc.walkEnd]⟩
+  | cons s W ih =>
+    intro x y h hb
+    cases h with
+    | @cons j a b c rest hae hrest =>
+      obtain ⟨p, hp, hw⟩ := ih b y hrest (fun s hs => hb s (List.mem_cons_of_mem _ hs))
+      have hj := hb (j, x, b) List.mem_cons_self
+      simp only at hj
+      refine ⟨p ++ [cons[j]!], ?_, ?_⟩
+      · intro c' hc'
+        rcases List.mem_append.1 hc' with h1 | h1
+        · exact hp c' h1
+        · simp only [List.mem_singleton] at h1
+          subst h1
+          exact ⟨getElem!_mem' cons j hae.1, hae.2.1⟩
+      · rw [List.map_append, AdaptaVerif.Lemmas.VpscFeasible.walkEnd_append, hw]
+        simp [AdaptaVerif.Check.Vpsc.walkEnd, conEdge, hj.1, hj.2]
+
+theorem walk_steps_ae {cons : Array Con} : ∀ {W : List Step} {x y : Nat}, Walk cons x y W →
+    ∀ s ∈ W, AE cons s.1 s.2.1 s.2.2 := by
+  intro W
+  induction W with
+  | nil => intro x y _ s hs; simp at hs
+  | cons t W ih =>
+    intro x y h s hs
+    cases h with
+    | cons hae hrest =>
+      rcases List.mem_cons.1 hs with rfl | hs
+      · exact hae
+      · exact ih hrest s hs
+
+theorem walk_start_reach {cons : Array Con} : ∀ {W : List Step} {x y : Nat}, Walk cons x y W →
+    ∀ s ∈ W, Reach cons x s.2.1 := by
+  intro W
+  induction W with
+  | nil => intro x y _ s hs; simp at hs
+  | cons t W ih =>
+    intro x y h s hs
+    cases h with
+    | cons hae hrest =>
+      rcases List.mem_cons.1 hs with rfl | hs
+      · exact ReflTransGen.refl
+      · exact ReflTransGen.head ⟨_, trivial, hae⟩ (ih hrest s hs)
+
+theorem forest_of_inv {vars cons n ia} (h : InvC vars cons n ia) : Forest cons := by
+  intro j a b hae hre
+  obtain ⟨hj, ha, hends⟩ := hae
+  rcases hends with ⟨rfl, rfl⟩ | ⟨rfl, rfl⟩
+  · exact h.bridge j hj ha hre
+  · exact h.bridge j hj ha hre.symm
+
+theorem isActiveDirectedPathBetween_self (st : St) (bid fuel u : Nat) :
+    (isActiveDirectedPathBetween st bid (fuel + 1) u u).1 = true := by
+  unfold isActiveDirectedPathBetween
+  simp
+
+theorem splitOn_fuel_true (st : St) (old ci : Nat) (h : st.fuelOut = true) :
+    (st.splitOn old ci).1.fuelOut = true := by
+  unfold St.splitOn St.split
+  simp [St.refreshBlock, St.markDeleted, St.pushInactive, h]
+
+theorem afterSplit_fuel (st : St) (v lid rid : Nat) :
+    (st.afterSplit v lid rid).fuelOut = st.fuelOut := by
+  unfold St.afterSplit
+  split
+  · rfl
+  · simp only
+    split
+    · simp only [St.incResat, St.insertBlocks, St.pushInactive, St.note]
+    · simp only [St.insertBlock]
+      exact (mergeAcross_frame _ v).2.2
 
 end AdaptaVerif.Lemmas.VpscLoop
